@@ -34,6 +34,7 @@
 #include <cocls/coro_storage.h>
 #include <cocls/alloca_storage.h>
 #include <cocls/with_allocator.h>
+#include <cocls/callback_awaiter.h>
 #include <cocls_verif/vsched.h>
 #include "replay_common.h"
 
@@ -238,8 +239,9 @@ struct FrameRec {
     long ev_begin = 0, ev_end = -1;   // extra: window of ereg events belonging to this frame
     bool usable = true;
     std::uint32_t serial = 0;
+    int cidx = 0;                     // index of the creation (FrameRef / future / promise) it came from
 };
-struct FrameRef { FrameRec *r = nullptr; int cls = 0; int thread = 0; };
+struct FrameRef { FrameRec *r = nullptr; int cls = 0; int thread = 0; int idx = 0; };
 
 inline unsigned char pat(int id, std::size_t i) { return (unsigned char) (id * 41 + i * 7 + 3); }
 
@@ -265,40 +267,108 @@ static cocls::with_allocator<A, cocls::async<void>> body(A &, FrameRef &ref) {
     r.finished = true;
 }
 
+// Shape families (header "fam"):
+//   0  bodies with local arrays of 16 / 256 / 1024 bytes
+//   1  the same + 8 bytes: the other residue of the frame size modulo 16
+//   2  the library's own callback_await_coro, created through cocls::callback_await_alloc<Policy, future<int>&>
+//      (the with_allocator path scheduler.h uses with stack_storage) with a callback object carrying
+//      16 / 256 / 1024 bytes; the coroutine awaits a future and is completed by resolving it
+//   3  the same + 8 bytes
+constexpr int NFAM = 4;
 constexpr std::size_t N1 = 16, N2 = 256, N3 = 1024;
 
 template <typename A>
-static cocls::with_allocator<A, cocls::async<void>> make_body(int c, A &st, FrameRef &ref) {
-    switch (c) {
-        case 1: return body<N1>(st, ref);
-        case 2: return body<N2>(st, ref);
-        default: return body<N3>(st, ref);
+static cocls::with_allocator<A, cocls::async<void>> make_body(int fam, int c, A &st, FrameRef &ref) {
+    switch (c * 2 + (fam & 1)) {
+        case 2: return body<N1>(st, ref);
+        case 3: return body<N1 + 8>(st, ref);
+        case 4: return body<N2>(st, ref);
+        case 5: return body<N2 + 8>(st, ref);
+        case 6: return body<N3>(st, ref);
+        default: return body<N3 + 8>(st, ref);
     }
 }
 
+// callback of callback_await_alloc: the copy that ends up inside the coroutine frame carries the canary
+template <std::size_t N>
+struct CbFn {
+    FrameRef *ref;
+    unsigned char payload[N];
+    explicit CbFn(FrameRef *r) : ref(r) { memset(payload, 0, N); }
+    CbFn(const CbFn &o) : ref(o.ref) {
+        memcpy(payload, o.payload, N);
+        if (ref && ref->r) {
+            FrameRec &r = *ref->r;
+            auto me = reinterpret_cast<unsigned char *>(this);
+            if (me >= r.ptr && me + sizeof(*this) <= r.ptr + r.sz) {      // this copy lives in the frame
+                for (std::size_t i = 0; i < N; i++) payload[i] = pat(r.id, i);
+                r.buf = payload;
+                r.n = N;
+                r.started = true;
+            }
+        }
+    }
+    void operator()(cocls::await_result<int> res) {
+        if (!ref || !ref->r) return;
+        FrameRec &r = *ref->r;
+        bool ok = static_cast<bool>(res) && r.buf == payload;
+        for (std::size_t i = 0; i < N; i++) ok &= payload[i] == pat(r.id, i);
+        r.canary_ok = ok;
+        r.finished = true;
+    }
+};
+
+template <typename A>
+static void make_cb(int fam, int c, A &st, FrameRef &ref, cocls::future<int> &fut) {
+    using Awt = cocls::future<int> &;
+    switch (c * 2 + (fam & 1)) {
+        case 2: cocls::callback_await_alloc<A, Awt>(st, CbFn<N1>(&ref), fut); break;
+        case 3: cocls::callback_await_alloc<A, Awt>(st, CbFn<N1 + 8>(&ref), fut); break;
+        case 4: cocls::callback_await_alloc<A, Awt>(st, CbFn<N2>(&ref), fut); break;
+        case 5: cocls::callback_await_alloc<A, Awt>(st, CbFn<N2 + 8>(&ref), fut); break;
+        case 6: cocls::callback_await_alloc<A, Awt>(st, CbFn<N3>(&ref), fut); break;
+        default: cocls::callback_await_alloc<A, Awt>(st, CbFn<N3 + 8>(&ref), fut); break;
+    }
+}
+
+// the lazily constructed thread-local ready queue (a std::deque) is not an allocation of any storage
+static void warm_thread() { (void) cocls::coro_queue::queue_impl::instance._queue.size(); }
+
 // ---------------------------------------------------------------------------------------------
-// frame sizes chosen by the compiler for the three body shapes: observed once, through a policy of
-// the harness (no library policy is involved: a broken policy must not break the calibration)
+// frame sizes chosen by the compiler for the body shapes: observed once, through a policy of the
+// harness (no library policy is involved: a broken policy must not break the calibration)
 // ---------------------------------------------------------------------------------------------
 struct calib_storage {
     static inline std::size_t last = 0;
     void *alloc(std::size_t sz) { last = sz; return malloc(sz); }
     static void dealloc(void *p, std::size_t) { free(p); }
 };
-static std::size_t F[4] = {0, 0, 0, 0};
+static std::size_t FF[NFAM][4] = {};
+static std::size_t *F = FF[0];      // the family of the running scenario
 
 static void calibrate() {
-    if (F[1]) return;
-    for (int c = 1; c <= 3; c++) {
-        calib_storage cs;
-        FrameRef ref;
-        calib_storage::last = 0;
-        { auto co = make_body<calib_storage>(c, cs, ref); }      // created and destroyed unstarted
-        F[c] = calib_storage::last;
-    }
-    if (!(F[1] >= N1 && F[1] + 100 <= F[2] && F[2] + 100 <= F[3] && F[3] + 100 <= arena::SLOTSZ)) {
-        fprintf(stderr, "frame sizes %zu %zu %zu cannot be classified\n", F[1], F[2], F[3]);
-        exit(3);
+    if (FF[0][1]) return;
+    warm_thread();
+    for (int fam = 0; fam < NFAM; fam++) {
+        for (int c = 1; c <= 3; c++) {
+            calib_storage cs;
+            FrameRef ref;
+            calib_storage::last = 0;
+            if (fam < 2) {
+                auto co = make_body<calib_storage>(fam, c, cs, ref);      // created and destroyed unstarted
+            } else {
+                cocls::future<int> fut;
+                cocls::promise<int> prom = fut.get_promise();
+                make_cb<calib_storage>(fam, c, cs, ref, fut);
+                prom(0);                                                  // completes and frees the coroutine
+            }
+            FF[fam][c] = calib_storage::last;
+        }
+        std::size_t *f = FF[fam];
+        if (!(f[1] >= N1 && f[1] + 100 <= f[2] && f[2] + 100 <= f[3] && f[3] + 100 <= arena::SLOTSZ)) {
+            fprintf(stderr, "frame sizes %zu %zu %zu of family %d cannot be classified\n", f[1], f[2], f[3], fam);
+            exit(3);
+        }
     }
 }
 
@@ -350,7 +420,13 @@ struct World {
     std::uint32_t next_serial = 1;
     std::array<FrameRec, 16> frames;
     int nframes = 0;
-    FrameRef refs[2];
+    std::array<FrameRef, 16> crefs;             // one per creation (a callback object keeps pointing to its own)
+    int ncreate = 0;
+    FrameRef *cur_ref[2] = {nullptr, nullptr};  // creation in progress, per thread
+    std::array<std::unique_ptr<cocls::future<int>>, 16> futs;   // family 2/3: what the coroutine awaits
+    std::array<std::optional<cocls::promise<int>>, 16> proms;
+    int fam = 0;
+    bool obs_alloc = false;                     // reduced projection: heap traffic only (C20)
     bool torn = false;
     int nslots = 4;
     std::string kill = "finish";
@@ -393,7 +469,8 @@ struct World {
     static void on_alloc(void *ctx, void *p, std::size_t sz) {
         World &w = *static_cast<World *>(ctx);
         int t = w.mt && vsched::self() ? vsched::self()->id : 0;
-        FrameRef &ref = w.refs[t];
+        if (!w.cur_ref[t]) { w.note("alloc-outside-creation"); return; }
+        FrameRef &ref = *w.cur_ref[t];
         if (w.nframes >= (int) w.frames.size()) { w.note("too many frames"); return; }
         FrameRec &r = w.frames[w.nframes++];
         r.id = w.nframes;
@@ -402,6 +479,7 @@ struct World {
         r.ptr = static_cast<unsigned char *>(p);
         r.sz = sz;
         r.live = true;
+        r.cidx = ref.idx;
         ref.r = &r;
         if (ref.cls >= 1 && ref.cls <= 3 && sz != F[ref.cls]) w.note("frame-size-differs-from-calibration:" + std::to_string(r.id));
     }
@@ -420,12 +498,24 @@ struct World {
     }
 
     // ---- the two public operations ----
-    // (the stack policy's creation is done in run(): its alloca buffer must live in run()'s frame)
-    void start_created(cocls::async<void> &co, FrameRef &ref) {
+    FrameRef &new_ref(int t, int c) {
+        FrameRef &ref = crefs[ncreate % crefs.size()];
+        ref = FrameRef{nullptr, c, t, ncreate % (int) crefs.size()};
+        ncreate++;
+        cur_ref[t] = &ref;
+        if (fam >= 2) {     // harness objects, not the storage's
+            alloc_pause np;
+            futs[ref.idx].reset(new cocls::future<int>());
+            proms[ref.idx].emplace(futs[ref.idx]->get_promise());
+        }
+        return ref;
+    }
+
+    void check_extra(FrameRef &ref) {
         FrameRec *r = ref.r;
-        if (!r) { note("alloc-hook-not-called"); return; }
+        if (!r) return;
         if constexpr (P == Pol::extra) {
-            // the coroutine object exists, the coroutine has not started: the attached object must be usable
+            // the coroutine object exists (families 0/1: it has not started yet): the attached object must be usable
             Extra *e = storage->operator->();
             r->serial = next_serial - 1;
             bool ok = reinterpret_cast<unsigned char *>(e) == r->ptr + r->sz && ereg::alive(e);
@@ -433,19 +523,32 @@ struct World {
             if (ok) e->touch = 7;      // use it
             r->usable = ok;
         }
-        auto sp = co.detach();
-        std::coroutine_handle<> h = sp.pop();
-        h.resume();                    // runs the body up to its gate: canaries written
     }
 
-    void do_create(int t, int c) {
-        FrameRef &ref = refs[t];
-        ref = FrameRef{nullptr, c, t};
+    // creates a coroutine of class c on storage `st` and runs it up to its suspension (call inside lib_scope)
+    void create_on(A &st, FrameRef &ref, int c) {
         long ev0 = ereg::n;
+        if (fam < 2) {
+            auto co = make_body<A>(fam, c, st, ref);
+            if (!ref.r) { note("alloc-hook-not-called"); return; }
+            ref.r->ev_begin = ev0;
+            check_extra(ref);
+            auto sp = co.detach();
+            std::coroutine_handle<> h = sp.pop();
+            h.resume();                    // runs the body up to its gate: canaries written
+        } else {
+            make_cb<A>(fam, c, st, ref, *futs[ref.idx]);   // created, started, suspended on the future
+            if (!ref.r) { note("alloc-hook-not-called"); return; }
+            ref.r->ev_begin = ev0;
+            check_extra(ref);
+        }
+    }
+
+    // (the stack policy's creation is done in run(): its alloca buffer must live in run()'s frame)
+    void do_create(int t, int c) {
+        FrameRef &ref = new_ref(t, c);
         lib_scope ls;
-        auto co = make_body<A>(c, *storage, ref);
-        if (ref.r) ref.r->ev_begin = ev0;
-        start_created(co, ref);
+        create_on(*storage, ref, c);
     }
 
     void do_complete(int, int f) {
@@ -457,7 +560,8 @@ struct World {
         }
         {
             lib_scope ls;
-            if (kill == "destroy") r.h.destroy();
+            if (fam >= 2) (*proms[r.cidx])(1);       // the awaited future resolves: callback runs, coroutine ends
+            else if (kill == "destroy") r.h.destroy();
             else r.h.resume();
         }
         r.ev_end = ereg::n;
@@ -538,6 +642,7 @@ struct World {
         if (arena::exhausted) bad.push("arena-exhausted");
         // frames
         J fl = J::list();
+        J wl = J::list();            // where each frame lies (reduced projection)
         int ninv = 0;
         for (int i = 0; i < nframes; i++) {
             FrameRec &r = frames[i];
@@ -554,6 +659,7 @@ struct World {
             if (!r.live) {
                 f.set("c", 0); f.set("live", false); f.set("where", "gone"); f.set("slot", 0); f.set("blk", 0); f.set("tr", "gone");
                 fl.push(f);
+                wl.push("gone");
                 continue;
             }
             f.set("c", r.cls);
@@ -583,6 +689,7 @@ struct World {
                 f.set("slot", 0);
                 f.set("blk", 0);
             }
+            wl.push(slot ? "heap" : P == Pol::stack ? "stack" : P == Pol::placement ? "place" : "unknown");
             if (!fits) bad.push("memory-too-small:" + std::to_string(r.id));
             // what lies behind the frame
             std::string tr = "none";
@@ -637,6 +744,17 @@ struct World {
         for (int t = 0; t < nthreads; t++) pend.set("t" + std::to_string(t + 1), pend_of(t));
         m.set("pend", pend);
         m.set("bad", bad);
+        if (obs_alloc) {
+            // C20: the storage's heap traffic only -- operator new / delete calls so far, blocks alive, and
+            // whether each frame lies in a heap block at all
+            J a = J::map();
+            a.set("news", arena::news);
+            a.set("dels", arena::dels);
+            a.set("live", arena::used());
+            a.set("where", wl);
+            a.set("bad", bad);
+            return a;
+        }
         return m;
     }
 
@@ -664,6 +782,12 @@ struct World {
         nslots = (int) sc.hdr.at("nslots").as_int(4);
         std::string grain = sc.hdr.at("grain").as_str("call");
         long init = sc.hdr.at("init").as_int(0);
+        fam = (int) sc.hdr.at("fam").as_int(0);
+        obs_alloc = sc.hdr.at("obs").as_str("full") == "alloc";
+        if (fam < 0 || fam >= NFAM || (mt && fam >= 2)) { rep.error(0, "bad shape family"); return; }
+        F = FF[fam];
+        if (fam >= 2) kill = "finish";
+        warm_thread();
         int nthreads = mt ? 2 : 1;
         if (mt && P != Pol::mtsafe) { rep.error(0, "two-thread mode is for reusable_storage_mtsafe"); return; }
         // set-up (not part of the counted history)
@@ -705,8 +829,7 @@ struct World {
                     sched.step(t);
                 } else if constexpr (P == Pol::stack) {
                     // as scheduler.h:241-255 does: a storage object per call, buffer from alloca
-                    FrameRef &ref = refs[0];
-                    ref = FrameRef{nullptr, c, 0};
+                    FrameRef &ref = new_ref(0, c);
                     stack_storages.emplace_back(state);
                     A &sst = stack_storages.back();
                     unsigned char *guard = static_cast<unsigned char *>(alloca(64));
@@ -717,10 +840,9 @@ struct World {
                     sst.set_buffer(ab);
                     {
                         lib_scope ls;
-                        auto co = make_body<A>(c, sst, ref);
-                        if (ref.r) { ref.r->abuf = ab; ref.r->asize = asz; ref.r->guard = guard; }
-                        start_created(co, ref);
+                        create_on(sst, ref, c);
                     }
+                    if (ref.r) { ref.r->abuf = ab; ref.r->asize = asz; ref.r->guard = guard; }
                     if (asz != sst.*SProbe::asize_mp() || ab != sst.*SProbe::aptr_mp()) note("stack-storage-bookkeeping");
                 } else {
                     do_create(0, c);
@@ -772,9 +894,10 @@ struct World {
             mt = false;
         }
         arena::alloc_marks = false;
-        for (int i = 0; i < nframes; i++) if (frames[i].live && frames[i].h) {
+        for (int i = 0; i < nframes; i++) if (frames[i].live) {
             lib_scope ls;
-            frames[i].h.destroy();
+            if (fam >= 2) (*proms[frames[i].cidx])(1);
+            else if (frames[i].h) frames[i].h.destroy();
         }
         if (!torn) do_teardown();
         g_hook = TraceHook{};
@@ -803,18 +926,23 @@ int main(int argc, char **argv) {
     }
     if (argc > 1 && !strcmp(argv[1], "--sizes")) {
         calibrate();
-        printf("SIZES %zu %zu %zu\n", F[1], F[2], F[3]);
+        static const char *names[NFAM] = {"body", "body+8", "callback_await_alloc", "callback_await_alloc+8"};
+        for (int f = 0; f < NFAM; f++)
+            printf("SIZES fam%d %s: %zu %zu %zu (mod 16: %zu %zu %zu)\n", f, names[f], FF[f][1], FF[f][2], FF[f][3],
+                   FF[f][1] % 16, FF[f][2] % 16, FF[f][3] % 16);
         return 0;
     }
     return replay_main(std::cin, [](const Scenario &sc, Reporter &rep) {
         std::string p = sc.hdr.at("policy").as_str();
-        if (p == "default") { World<Pol::def> w; w.run(sc, rep); }
-        else if (p == "reusable") { World<Pol::reusable> w; w.run(sc, rep); }
+        if (p == "reusable") { World<Pol::reusable> w; w.run(sc, rep); }
         else if (p == "mtsafe") { World<Pol::mtsafe> w; w.run(sc, rep); }
         else if (p == "stack") { World<Pol::stack> w; w.run(sc, rep); }
+#ifndef STORAGE_REPLAY_REUSING_ONLY      // reduced build for the allocation check of C20 (compiles faster)
+        else if (p == "default") { World<Pol::def> w; w.run(sc, rep); }
         else if (p == "placement") { World<Pol::placement> w; w.run(sc, rep); }
         else if (p == "buffer") { World<Pol::buffer> w; w.run(sc, rep); }
         else if (p == "extra") { World<Pol::extra> w; w.run(sc, rep); }
+#endif
         else rep.error(0, "unknown policy");
     });
 }
